@@ -272,6 +272,7 @@ class C15(OptEngineBase):
                     o["m"] = rng.choice(JAC_POINT)
                 if q in ("pose_boxplus", "pose_alias_iadd"):
                     o["delta"] = [rng.gauss(0, 0.3) for _ in range(6)]
+                    o["big_step"] = rng.random() < 0.4
                 if q == "pose_held_result":
                     o["m"] = rng.choice(JAC_UNARY + JAC_UNARY + JAC_BINARY + JAC_POINT + ["to_array", "to_compact", "position", "to_matrix", "inverse", "copy"])
                 ops.append(o)
@@ -470,7 +471,12 @@ class C15(OptEngineBase):
             return [keep, canon_value(first)]
         d = a.COMPACT_DIMENSIONALITY
         if q == "pose_boxplus":
-            return a + np.array(op["delta"][:d], dtype=np.float64)
+            step = np.array(op["delta"][:d], dtype=np.float64)
+            if op.get("big_step") and d == 6:
+                step[3:] *= 6.0  # a rotation step of norm > 1 (the identity-rotation branch)
+            keep_step = step.copy()
+            out = a + step
+            return [out, bool(step.tobytes() == keep_step.tobytes())]
         if q == "pose_alias_iadd":
             res.probe("alias_test")
             r = a
@@ -613,6 +619,8 @@ class C15(OptEngineBase):
                     break
                 # semantic expectations of the probe queries
                 bad = None
+                if op["q"] == "pose_boxplus" and not isinstance(vals[0], BaseException) and isinstance(vals[0], list) and vals[0][1] is not True:
+                    bad = "p + step changed the caller's step array (pose operators never mutate their operands)"
                 if op["q"] == "pose_alias_iadd" and not isinstance(vals[0], BaseException) and vals[0][1] is True:
                     bad = "r = p; r += delta returned the operand itself (in-place update of a shared pose)"
                 if op["q"] == "pose_copy_independent" and not isinstance(vals[0], BaseException) and vals[0][0] is True:
